@@ -479,6 +479,12 @@ impl<'a> Ref<'a> {
         out
     }
 
+    /// input fields read by the body of the specifiable function on struct `t`
+    pub fn spec_reads(&mut self, t: &RTs) -> Vec<usize> {
+        self.run_fn(&FnId::Spec(t.creator, t.k, t.occ, t.v));
+        self.last_reads.clone()
+    }
+
     /// does a from-scratch run of node q itself perform an untracked read (of a cell)?
     pub fn direct_untracked(&mut self, q: usize) -> bool {
         self.run_fn(&FnId::Node(q));
@@ -1064,7 +1070,13 @@ pub fn gen_case(r: &mut Rng, p: Profile) -> Case {
         let e = match shape {
             // handle flow: creators conditionally specify; readers ask spec / on_ts / fields
             5..=7 if k < 2 => {
-                let mk = E::Mk(small(r, &prog), small(r, &prog), Box::new(E::In(r.usize(prog.ninputs))), small(r, &prog));
+                // one third: "late specify" order with constant fields (identity literal >= 2), so
+                // that the struct exists before the creator has read anything
+                let mk = if r.chance(1, 3) {
+                    E::Mk(Box::new(E::C(2 + r.below(2) as u32)), Box::new(E::C(r.below(4) as u32)), Box::new(E::In(r.usize(prog.ninputs))), small(r, &prog))
+                } else {
+                    E::Mk(small(r, &prog), small(r, &prog), Box::new(E::In(r.usize(prog.ninputs))), small(r, &prog))
+                };
                 if r.chance(1, 3) { E::If(Box::new(E::In(r.usize(prog.ninputs))), Box::new(mk), Box::new(gen_e(r, p, k, &prog, 2, 0))) } else { mk }
             }
             5..=7 if r.chance(2, 3) => {
@@ -1253,6 +1265,10 @@ pub fn gen_cycle_case(r: &mut Rng) -> Case {
 pub fn gen_inject_cases(r: &mut Rng, kmax: u32) -> Vec<Case> {
     let mut base = gen_case(r, Profile::Full);
     base.ops.truncate(12);
+    // a cell change is only meaningful together with the revision bump that follows it
+    if matches!(base.ops.last(), Some(Op::Cell(..))) {
+        base.ops.pop();
+    }
     // make sure there are requests after the injected one
     let n = base.prog.nodes.len();
     for _ in 0..3 {
@@ -1263,7 +1279,7 @@ pub fn gen_inject_cases(r: &mut Rng, kmax: u32) -> Vec<Case> {
         if !matches!(base.ops[p], Op::Get(_)) {
             continue;
         }
-        for w in ['b', 'e', 'q'] {
+        for w in ['b', 'e', 'q', 'h'] {
             for k in 1..=kmax {
                 let mut c = base.clone();
                 c.ops.insert(p, Op::Inject(w, k));
